@@ -490,6 +490,9 @@ class MarkdownNormalizer(Renderer):
         self._in_heading = True
         self._current_inline_text = ""
         children_content = self.render_children(element)
+        # A Setext heading may span several lines but an ATX heading cannot,
+        # so soft line breaks become spaces.
+        children_content = re.sub(r"(?<!\\)\n", " ", children_content)
         self._in_heading = False
         self._current_inline_text = ""
         # If heading ends with hard break, don't add extra newline
@@ -499,7 +502,10 @@ class MarkdownNormalizer(Renderer):
             # Don't skip next blank line or suppress item break for hard breaks
             return result
         else:
-            result = f"{self._prefix}{'#' * element.level} {children_content}\n\n"
+            # The blank line after the heading carries the container prefix (e.g. `>`),
+            # otherwise it would end an enclosing quote block.
+            blank_line = self._second_prefix.rstrip()
+            result = f"{self._prefix}{'#' * element.level} {children_content}\n{blank_line}\n"
             self._prefix = self._second_prefix
             # Skip the next blank line since we already added one
             self._skip_next_blank_line = True
